@@ -77,6 +77,14 @@ def result_observed(prog, f, c):
     carry = core.result_flow(f, c)
     if 0 in carry:
         return True   # returned to the caller (tail expression / closure result)
+    # the Ready/Pending discriminant of the poll loop is not an observation of the Result
+    poll_discr = set()
+    for b in f.blocks:
+        if b['c']:
+            continue
+        for s in b['s']:
+            if s['k'] == 'a' and s['r']['k'] == 'discr' and (core.place_type_str(f, s['r']['p']) or '').startswith('std::task::Poll'):
+                poll_discr.add(s['d'][0])
     # any carrying local used as: discriminant read, operand of a non-transparent call, returned, stored into a place
     for i, b in enumerate(f.blocks):
         if b['c']:
@@ -85,7 +93,7 @@ def result_observed(prog, f, c):
             if s['k'] != 'a':
                 continue
             r = s['r']
-            if r['k'] == 'discr' and r['p'][0] in carry:
+            if r['k'] == 'discr' and r['p'][0] in carry and not (core.place_type_str(f, r['p']) or '').startswith('std::task::Poll'):
                 return True
             if s['d'][0] == 0 and any(p[0] in carry for p in core.rvalue_places(r)):
                 return True
@@ -108,7 +116,7 @@ def result_observed(prog, f, c):
                     return True
                 if cc.dest[0] == 0:
                     return True
-        elif t['k'] == 'switch' and op_local(t['o']) in carry:
+        elif t['k'] == 'switch' and op_local(t['o']) in carry and op_local(t['o']) not in poll_discr:
             return True
     return False
 
